@@ -847,6 +847,9 @@ func (c *Conn) maxPayloadSizeForWrite(typ recordType) int {
 		case aead:
 			maxPayload -= ciph.Overhead()
 		case cbcMode:
+			// 载荷与 MAC 之后至少还有 1 字节填充，且密文须为分组长度的整数倍
+			blockSize := ciph.BlockSize()
+			maxPayload = (maxPayload &^ (blockSize - 1)) - 1
 			maxPayload -= c.out.mac.Size()
 		}
 	}
